@@ -282,7 +282,7 @@ pub struct GenParams {
     pub small_cfg: bool,
     /// probability (0..100) that the first parent of a client's chain is non-nil
     pub nonnil_base_pct: u32,
-    /// per-mille of payloads that are large (0.2-0.6 MB): beyond the default limits of
+    /// per-mille of payloads that are large (0.2-1.5 MB): beyond the default limits of
     /// off-the-shelf body extractors and well into SQLite overflow chains
     pub big_permille: u32,
 }
@@ -310,7 +310,7 @@ pub fn bytes_spec_big(max_len: u32, big_permille: u32) -> BoxedStrategy<BytesSpe
     }
     prop_oneof![
         1000 - big_permille.min(999) => bytes_spec(max_len),
-        big_permille.min(999) => (200_000u32..600_000, 0u8..N_CLASSES, 0u32..0xFFFF).prop_map(|(len, class, seed)| BytesSpec { len, class, seed }),
+        big_permille.min(999) => (200_000u32..1_500_000, 0u8..N_CLASSES, 0u32..0xFFFF).prop_map(|(len, class, seed)| BytesSpec { len, class, seed }),
     ]
     .boxed()
 }
